@@ -168,6 +168,11 @@ def run(tier):
     c.set("templates", tot)
     if c.violations:                       # a violation outranks the vacuity guards (cut histories count fewer templates)
         return c.finish()
+    # a history never ends early on the unchanged tree: a fixture error is not silently dropped (a refusal of the node's own
+    # template is a Template event of moment "self-mined" and was judged above)
+    ended = [(d["summary"]["seed"], d["summary"]["error"]) for d in docs if d["summary"]["error"]]
+    if ended:
+        raise V.ToolError("histories ended by a fixture error: %s" % ended[:3])
     if tot["templates"] < 5 * nh or tot["with_commits"] == 0 or tot["before_pool_sync"] == 0 or tot["reorgs"] == 0:
         raise V.ToolError("vacuous run: %s" % tot)
     # named vacuity case: "template with uncle candidates right after an epoch boundary"
